@@ -196,7 +196,7 @@ package hpack
 //@   ensures [C18:size-update-within-allowed-maximum] err == nil ==> d.dynTab.maxSize <= d.dynTab.allowedMaxSize && d.dynTab.size <= d.dynTab.maxSize
 //@   ensures [C18:success-consumes-a-prefix] err == nil ==> len(d.buf) < len(old(d.buf)) && d.buf == old(d.buf)[len(old(d.buf)) - len(d.buf):]
 //@   ensures [C18:failure-changes-nothing] err != nil ==> d.buf == old(d.buf) && d.dynTab.maxSize == old(d.dynTab.maxSize) && d.dynTab.table.ents == old(d.dynTab.table.ents) && d.dynTab.size == old(d.dynTab.size)
-//@   ensures [C18:table-stays-consistent] smallState(d) || err != nil
+//@   ensures [C18:table-stays-consistent] smallState(d) || (err != nil && err != errNeedMore)
 
 //@ func indexType.indexed :: v -> r
 //@   props C18
@@ -219,3 +219,42 @@ package hpack
 //@   ensures [C18:success-means-emitted-when-enabled] err == nil && d.emitEnabled ==> len(d.emitted) == len(old(d.emitted)) + 1 && (d.emitted[len(old(d.emitted))].Sensitive <==> it == 2)
 //@   ensures [C18:indexed-literal-becomes-newest-entry] err == nil && it == 0 && d.emitEnabled && len(d.dynTab.table.ents) > 0 && entSize(d.emitted[len(old(d.emitted))]) <= d.dynTab.maxSize ==> d.dynTab.table.ents[len(d.dynTab.table.ents)-1].Name == d.emitted[len(old(d.emitted))].Name && d.dynTab.table.ents[len(d.dynTab.table.ents)-1].Value == d.emitted[len(old(d.emitted))].Value
 //@   ensures [C18:table-stays-consistent] smallState(d) || (err != nil && err != errNeedMore)
+
+//@ func (*Decoder).parseHeaderFieldRepr :: d -> err
+//@   props C18,C10
+//@   requires d != nil && smallState(d) && emitOK(d)
+//@   requires [C18:called-with-input] len(d.buf) > 0
+//@   assigns d.buf, d.emitted, d.dynTab.maxSize, d.dynTab.size, d.dynTab.table.ents, d.dynTab.table.evictCount, mapOf(d.dynTab.table.byName), mapOf(d.dynTab.table.byNameValue)
+//@   ensures [C18:need-more-changes-nothing] err == errNeedMore ==> d.buf == old(d.buf) && d.emitted == old(d.emitted) && d.dynTab.table.ents == old(d.dynTab.table.ents) && d.dynTab.size == old(d.dynTab.size) && d.dynTab.maxSize == old(d.dynTab.maxSize)
+//@   ensures [C18:success-consumes-a-prefix] err == nil ==> len(d.buf) < len(old(d.buf)) && d.buf == old(d.buf)[len(old(d.buf)) - len(d.buf):]
+//@   ensures [C18:size-update-representation-emits-nothing] 32 <= old(d.buf)[0] && old(d.buf)[0] < 64 ==> d.emitted == old(d.emitted) && (err == nil ==> d.dynTab.maxSize <= d.dynTab.allowedMaxSize)
+//@   ensures [C18:size-update-only-at-block-start] 32 <= old(d.buf)[0] && old(d.buf)[0] < 64 && !d.firstField && old(d.dynTab.size) > 0 ==> err != nil && err != errNeedMore
+//@   ensures [C18:only-incremental-indexing-and-size-updates-touch-the-table] old(d.buf)[0] >= 128 || old(d.buf)[0] < 32 ==> d.dynTab.table.ents == old(d.dynTab.table.ents) && d.dynTab.size == old(d.dynTab.size) && d.dynTab.maxSize == old(d.dynTab.maxSize)
+//@   ensures [C18:table-limit-changes-only-by-size-update] !(32 <= old(d.buf)[0] && old(d.buf)[0] < 64) ==> d.dynTab.maxSize == old(d.dynTab.maxSize)
+//@   ensures [C18:at-most-one-field-emitted] d.emitted == old(d.emitted) || (err == nil && d.emitEnabled && len(d.emitted) == len(old(d.emitted)) + 1 && d.emitted[:len(old(d.emitted))] == old(d.emitted))
+//@   ensures [C18:field-representation-emits-exactly-one] err == nil && d.emitEnabled && !(32 <= old(d.buf)[0] && old(d.buf)[0] < 64) ==> len(d.emitted) == len(old(d.emitted)) + 1 && (d.emitted[len(old(d.emitted))].Sensitive <==> (16 <= old(d.buf)[0] && old(d.buf)[0] < 32))
+//@   ensures [C18:table-stays-consistent] smallState(d) || (err != nil && err != errNeedMore)
+
+//@ func (*Decoder).Close :: d -> err
+//@   props C18
+//@   requires d != nil
+//@   assigns d.saveBuf.view, d.firstField
+//@   ensures [C18:truncated-block-rejected] len(old(d.saveBuf.view)) > 0 ==> err != nil && len(d.saveBuf.view) == 0
+//@   ensures [C18:complete-block-starts-a-new-one] len(old(d.saveBuf.view)) == 0 ==> err == nil && d.firstField && len(d.saveBuf.view) == 0
+
+//@ -- Write: the unparsed tail of a block is kept verbatim in saveBuf and re-parsed, prefixed to the next fragment
+//@ pure func wInv(d *Decoder) bool = dtInv(d.dynTab) && d.dynTab.table != staticTable && d.maxStrLen >= 0 && d.dynTab.size <= d.dynTab.maxSize && d.dynTab.maxSize <= 1073741824 && d.dynTab.allowedMaxSize <= 1073741824
+//@ func (*Decoder).Write :: d, p -> n, err
+//@   props C18,C10
+//@   requires d != nil && wInv(d) && emitOK(d)
+//@   requires [C18:sizes-fit-32-bits] len(p) + len(d.saveBuf.view) <= 268435456 && d.dynTab.table.evictCount + len(d.dynTab.table.ents) + len(p) + len(d.saveBuf.view) < 4611686018427387904
+//@   assigns d.buf, d.saveBuf.view, d.firstField, d.emitted, d.dynTab.maxSize, d.dynTab.size, d.dynTab.table.ents, d.dynTab.table.evictCount, mapOf(d.dynTab.table.byName), mapOf(d.dynTab.table.byNameValue)
+//@   ensures [C18:empty-write-is-a-no-op] len(p) == 0 ==> n == 0 && err == nil && d.saveBuf.view == old(d.saveBuf.view) && d.firstField == old(d.firstField) && d.emitted == old(d.emitted) && d.dynTab.table.ents == old(d.dynTab.table.ents)
+//@   ensures [C18:incomplete-tail-kept-verbatim-for-the-next-write] err == nil && len(p) > 0 ==> n == len(p) && len(d.saveBuf.view) <= len(old(d.saveBuf.view)) + len(p) && d.saveBuf.view == (old(d.saveBuf.view) ++ p)[len(old(d.saveBuf.view)) + len(p) - len(d.saveBuf.view):]
+//@   ensures [C18:nothing-parsed-means-nothing-changed] err == nil && len(p) > 0 && len(d.saveBuf.view) == len(old(d.saveBuf.view)) + len(p) ==> d.firstField == old(d.firstField) && d.emitted == old(d.emitted) && d.dynTab.table.ents == old(d.dynTab.table.ents) && d.dynTab.size == old(d.dynTab.size) && d.dynTab.maxSize == old(d.dynTab.maxSize)
+//@   ensures [C18:block-start-flag-never-set-by-write] d.firstField ==> old(d.firstField)
+//@   ensures [C18:emitted-fields-only-appended] len(d.emitted) >= len(old(d.emitted)) && d.emitted[:len(old(d.emitted))] == old(d.emitted)
+//@   ensures [C18:table-within-permitted-size] err == nil ==> wInv(d)
+//@   loop 1 invariant smallState(d) && emitOK(d) && len(d.saveBuf.view) == 0 && len(p) > 0 && len(d.buf) <= len(old(d.saveBuf.view)) + len(p) && d.buf == (old(d.saveBuf.view) ++ p)[len(old(d.saveBuf.view)) + len(p) - len(d.buf):]
+//@   loop 1 invariant (d.firstField ==> old(d.firstField)) && len(d.emitted) >= len(old(d.emitted)) && d.emitted[:len(old(d.emitted))] == old(d.emitted)
+//@   loop 1 invariant len(d.buf) == len(old(d.saveBuf.view)) + len(p) ==> d.firstField == old(d.firstField) && d.emitted == old(d.emitted) && d.dynTab.table.ents == old(d.dynTab.table.ents) && d.dynTab.size == old(d.dynTab.size) && d.dynTab.maxSize == old(d.dynTab.maxSize)
